@@ -113,8 +113,13 @@ impl PnlPair {
 pub fn pnl_pair_now(w: &World, v: usize, who: &str) -> Option<PnlPair> {
     let va = w.addrs.vamms.get(v)?;
     let s = w.q(&w.addrs.engine, json!({"unrealized_pnl": {"vamm": va, "trader": who, "calc_option": "spot_price"}})).ok()?;
-    let t = w.q(&w.addrs.engine, json!({"unrealized_pnl": {"vamm": va, "trader": who, "calc_option": "twap"}})).ok()?;
-    Some(PnlPair { spot_n: pu(&s["position_notional"]), spot_pnl: pi(&s["unrealized_pnl"]), twap_n: pu(&t["position_notional"]), twap_pnl: pi(&t["unrealized_pnl"]) })
+    let (spot_n, spot_pnl) = (pu(&s["position_notional"]), pi(&s["unrealized_pnl"]));
+    // a TWAP valuation that cannot be computed (a reserve record of the window cannot fill the closing trade: its cost
+    // is unbounded) is never the one of smaller magnitude: the spot valuation is binding, and the position is judged
+    match w.q(&w.addrs.engine, json!({"unrealized_pnl": {"vamm": va, "trader": who, "calc_option": "twap"}})) {
+        Ok(t) => Some(PnlPair { spot_n, spot_pnl, twap_n: pu(&t["position_notional"]), twap_pnl: pi(&t["unrealized_pnl"]) }),
+        Err(_) => Some(PnlPair { spot_n, spot_pnl, twap_n: spot_n, twap_pnl: spot_pnl }),
+    }
 }
 
 pub fn pnl_pair_pre(ctx: &Ctx) -> Option<PnlPair> {
